@@ -34,11 +34,11 @@ def get_adapter(prop):
 BUDGET = {
     # property: tier: (runs, soft deadline seconds)
     'C15': {'quick': (24000, 50), 'thorough': (1500000, 780)},
-    'C20': {'quick': (3200, 70), 'thorough': (400000, 1020)},
+    'C20': {'quick': (2400, 65), 'thorough': (400000, 1020)},
 }
 
 
-DET_RUNS = {'C15': {'quick': 400, 'thorough': 4000}, 'C20': {'quick': 120, 'thorough': 1500}}
+DET_RUNS = {'C15': {'quick': 400, 'thorough': 4000}, 'C20': {'quick': 60, 'thorough': 1500}}
 
 
 def cmd_setup():
